@@ -94,22 +94,24 @@ class PositionState(StateBaseComponent):
         """
         self.grid.reset()
 
-        # Shuffle agents if requested
+        # Shuffle agents if requested. The shuffled order is only used for this
+        # episode's placement, so that it does not depend on earlier episodes.
+        agents = self.agents
         if self.randomize_placement_order:
             agents = list(self.agents.items())
             random.shuffle(agents)
-            self.agents = dict(agents)
+            agents = dict(agents)
 
         # Build lists of available positions
         self._build_available_positions()
 
         # Place agents with initial positions.
-        for agent in self.agents.values():
+        for agent in agents.values():
             if agent.initial_position is not None:
                 self._place_initial_position_agent(agent)
 
         # Now place agents with variable positions
-        for agent in self.agents.values():
+        for agent in agents.values():
             if agent.initial_position is None:
                 self._place_variable_position_agent(agent)
 
@@ -296,11 +298,13 @@ class TargetBarriersFreePlacementState(PositionState):
         """
         self.grid.reset()
 
-        # Shuffle agents if requested
+        # Shuffle agents if requested. The shuffled order is only used for this
+        # episode's placement, so that it does not depend on earlier episodes.
+        agents = self.agents
         if self.randomize_placement_order:
             agents = list(self.agents.items())
             random.shuffle(agents)
-            self.agents = dict(agents)
+            agents = dict(agents)
 
         # Assert that all encodings are captured
         for agent in self.agents.values():
@@ -316,14 +320,14 @@ class TargetBarriersFreePlacementState(PositionState):
         self._update_available_positions(self.target_agent)
 
         # Place agents with initial positions.
-        for agent in self.agents.values():
+        for agent in agents.values():
             if agent == self.target_agent:
                 continue
             if agent.initial_position is not None:
                 self._place_initial_position_agent(agent)
 
         # Now place barrier + free agents with variable positions
-        for agent in self.agents.values():
+        for agent in agents.values():
             if agent == self.target_agent:
                 continue
             if agent.initial_position is None:
@@ -531,11 +535,13 @@ class MazePlacementState(PositionState):
         """
         self.grid.reset()
 
-        # Shuffle agents if requested
+        # Shuffle agents if requested. The shuffled order is only used for this
+        # episode's placement, so that it does not depend on earlier episodes.
+        agents = self.agents
         if self.randomize_placement_order:
             agents = list(self.agents.items())
             random.shuffle(agents)
-            self.agents = dict(agents)
+            agents = dict(agents)
 
         # Assert that all encodings are captured
         for agent in self.agents.values():
@@ -550,14 +556,14 @@ class MazePlacementState(PositionState):
         self._update_available_positions(self.target_agent)
 
         # Place agents with initial positions.
-        for agent in self.agents.values():
+        for agent in agents.values():
             if agent == self.target_agent:
                 continue
             if agent.initial_position is not None:
                 self._place_initial_position_agent(agent)
 
         # Now place barrier + free agents with variable positions
-        for agent in self.agents.values():
+        for agent in agents.values():
             if agent == self.target_agent:
                 continue
             if agent.initial_position is None:
